@@ -25,7 +25,7 @@ RankSeq(rank) == [i \in 1..N |-> rank[KeySeq[i]]]
 RootSetsEmitted == IF Full THEN SUBSET Keys
                    ELSE {RootsOf(nodes, deps), nodes} \cup {{k} : k \in Keys}
 RootSetsChecked == RootSetsEmitted
-RootSeqs(S) == {Asc(S), Desc(S)}
+RootSeqs(S) == IF N <= 4 THEN {Asc(S), Desc(S)} ELSE {Asc(S)}   \* prune_by takes its roots in the given order
 Stops == SUBSET nodes
 
 \* every DAG (and, for merge, every edge set: a union may even be cyclic) over at most MaxOther keys
